@@ -32,6 +32,8 @@ class ConveyorBelt(Edge):
         belt (BeltStore): The belt store object.
     """
     def __init__(self, env, id, conveyor_length, speed,item_length,accumulating):
+        if conveyor_length <= 0 or item_length <= 0 or speed <= 0:
+            raise ValueError("conveyor_length, item_length and speed must be positive.")
         capacity = int(np.ceil(conveyor_length)/item_length)
         super().__init__(env, id, capacity)
        
